@@ -1,9 +1,18 @@
-"""C05: see servelib.run_property (shared Serve model / replay / ServeObs pipeline)."""
+"""C05: servelib.run_property (Serve model -> schedules replayed on the real FBDNSDB over the instrumented backend -> ServeObs)
+plus free-running traces on the REAL backends (CDB file replaced by rename / switched; RocksDB secondary of a primary that is
+updated with ApplyDiff, partial = catch-up, full = new directory), judged by the same ServeObs for the C05 reasons: what a
+query that starts after a reload has really returned must see."""
 import servelib
+from vlib import tier
+
+
+def real_backends(rep):
+    t = 8 if tier() == "thorough" else 3
+    servelib.free_running(rep, "C05", [("cdb", t, False), ("rdb-v1", t, False), ("rdb-v2", t, True), ("rdb-v2", t, False)])
 
 
 def run():
-    return servelib.run_property("C05")
+    return servelib.run_property("C05", extra=real_backends)
 
 
 def replay(path):
